@@ -56,7 +56,12 @@ _HDR = re.compile(r'^//!\s*(raw|spec|proof|fn|const|struct|trait)\b\s*(.*?)(?:\s
 def parse_overlay_file(path, unit):
     entries = []
     cur = None
+    file_scope = None
     for ln, line in enumerate(open(path).read().split('\n'), 1):
+        msc = re.match(r'^//!\s*scope\s+(\S+)\s*$', line)
+        if msc:
+            file_scope = msc.group(1)
+            continue
         if line.startswith('//!'):
             m = _HDR.match(line)
             if not m:
@@ -72,6 +77,8 @@ def parse_overlay_file(path, unit):
                         cur.opts[k] = v
                     else:
                         cur.opts[kv] = '1'
+            if file_scope is not None and 'scope' not in cur.opts:
+                cur.opts['scope'] = file_scope
             cur.text = ''
             cur.unit = unit
             cur.line = ln
